@@ -172,6 +172,8 @@ def _short(v):
 
 
 def execute(case, scratch):
+    if case.get("part") == "editions":
+        return execute_editions(case, scratch)
     out = core.Outcome()
     d = env.fresh_dir(scratch, "c10-")
     try:
@@ -264,6 +266,113 @@ def execute(case, scratch):
         env.rm(d)
 
 
+# ------------------------------------------------------------------------------------------
+# Editions part: provenance across code changes (several versions of one function in one dependency set)
+# ------------------------------------------------------------------------------------------
+
+def _editions(case):
+    """[program of edition 0, 1, ...]: the edits are applied one after the other; explicit version strings stay as they are
+    (a function with an explicit version keeps its memoized results although something beneath it changed - documented)"""
+    from vlib import progs
+    eds = [case["program"]]
+    kinds = []
+    for i, ed in enumerate(case["edits"]):
+        p2, info = progs.apply_edit(eds[-1], ed, "e%d" % i)
+        if not info["applied"]:
+            continue
+        for dd in progs.fns(p2):
+            dd["version"] = progs.find(case["program"], dd["name"]).get("version")
+        eds.append(p2)
+        kinds.append(info["kind"])
+    return eds, kinds
+
+
+def execute_editions(case, scratch):
+    from vlib import proc, progs, progrun
+    out = core.Outcome()
+    d = env.fresh_dir(scratch, "c10e-")
+    try:
+        eds, kinds = _editions(case)
+        prog0 = eds[0]
+        roots = [[f["mod"], f["name"]] for f in progs.fns(prog0) if f["memento"] and f["name"] == "f0"]
+        store = os.path.join(d, "store")
+        two_versions = False
+        checked = skipped = 0
+        for i, p in enumerate(eds):
+            pkgroot = os.path.join(d, "ed%d" % i)
+            progrun.write_files(pkgroot, progs.render_files(p))
+            r = proc.forkrun(progrun.run_provenance, {"pkgroot": pkgroot, "pkg": p["pkg"], "modules": p["modules"], "store": store,
+                                                      "roots": roots, "args": case["args"]}, timeout=300)
+            bad = [v for vs in r["results"].values() for v in vs if "exc" in v]
+            if bad:
+                out.violation("edition %d: a root call raised %s: %s" % (i, bad[0]["exc"], bad[0]["msg"]), symptom="exception", exc=bad[0]["exc"], where="editions")
+                break
+            by_key = {(e["qn"], e["h"]): e for e in r["dump"]}
+            for e in r["dump"]:
+                kids = [by_key.get((q, h)) for q, h in e["inv"]]
+                if any(k is None for k in kids):
+                    skipped += 1
+                    continue
+                want = {e["qn"]}
+                for k in kids:
+                    want |= set(k["deps"])
+                checked += 1
+                names = [q.split("#")[0] for q in want]
+                if len(names) != len(set(names)):
+                    two_versions = True
+                if set(e["deps"]) != want:
+                    out.violation("after edition %d (edits %r): the stored memento of %s lists dependencies %r; itself plus the dependency sets stored for the calls it recorded give %r" % (
+                        i, kinds[:i], e["qn"], sorted(e["deps"]), sorted(want)), symptom="dependencies-not-the-union-of-the-recorded-calls",
+                        missing=bool(want - set(e["deps"])), extra=bool(set(e["deps"]) - want), two_versions=len(names) != len(set(names)))
+                    break
+            if out.violations:
+                break
+        out.nontrivial = two_versions
+        out.labels = ["part:editions", "editions:%d" % len(eds)] + (["two-versions-of-one-function-in-a-dependency-set"] if two_versions else []) + \
+            ["src:" + case.get("src", "random")]
+        out.nt_key = [case["program"], case["edits"]]
+        out.render = {"program": {k: v for k, v in progs.render_files(prog0).items() if not k.endswith("__init__.py")}, "edits": kinds,
+                      "mementos_checked": checked, "skipped_because_a_recorded_call_has_no_memento": skipped}
+        return out
+    finally:
+        env.rm(d)
+
+
+def _fn(name, memento=True, version=None, base=0, body=None):
+    return {"k": "fn", "mod": "a", "name": name, "memento": memento, "version": version, "cluster": None, "pdef": None, "kwdef": None, "fdef": None,
+            "base": {"e": "lit", "v": base}, "body": body or {"e": "x"}}
+
+
+def directed_editions():
+    """small enumerated family: a function with an explicit version (its results survive the edit) calls a leaf that is edited;
+    the root reaches the leaf too - directly, through a plain helper, or only through the pinned function"""
+    call = lambda f: {"e": "call", "f": f}  # noqa: E731
+    add = lambda a, b: {"e": "add", "a": a, "b": b}  # noqa: E731
+    for root_version in (None, "r1"):
+        for shape in ("direct", "helper", "only-pinned"):
+            for leaf_kind in ("lit", "var"):
+                defs = []
+                if leaf_kind == "var":
+                    defs.append({"k": "var", "mod": "a", "name": "G0", "vtype": "int", "value": 3})
+                    leaf = _fn("f2", base=1, body=add({"e": "x"}, {"e": "glob", "n": "G0"}))
+                else:
+                    leaf = _fn("f2", base=1, body=add({"e": "x"}, {"e": "lit", "v": 5}))
+                pinned = _fn("f1", version="p1", base=2, body=add(call("f2"), {"e": "lit", "v": 1}))
+                defs += [leaf, pinned]
+                if shape == "direct":
+                    rb = add(call("f1"), call("f2"))
+                elif shape == "helper":
+                    defs.append(_fn("f3", memento=False, base=0, body=call("f2")))
+                    rb = add(call("f1"), call("f3"))
+                else:
+                    rb = add(call("f1"), {"e": "lit", "v": 7})
+                defs.append(_fn("f0", version=root_version, base=0, body=rb))
+                # (site 0: the first literal of the leaf, which is defined first / the only variable)
+                edit = {"kind": "var" if leaf_kind == "var" else "lit", "site": 0, "delta": 1, "alt": False, "idx": 0}
+                yield {"part": "editions", "src": "directed", "program": {"pkg": "vpk", "modules": ["a"], "defs": defs},
+                       "edits": [edit], "args": [2, 3]}
+
+
 def replay(case, ctx):
     return execute(case, ctx.scratch)
 
@@ -282,7 +391,20 @@ def run_shard(ctx):
     stats = core.Stats()
     thorough = ctx.tier == "thorough"
     n = 3000 if thorough else 90
-    core.hyp_search(strategy(thorough), lambda c: execute(c, ctx.scratch), stats, max_examples=n,
+    ex = lambda c: execute(c, ctx.scratch)  # noqa: E731
+    dl = (lambda frac: max((ctx.deadline - time.time()) * frac, 5) if ctx.deadline else None)
+    # editions part: a directed enumerated family, then generated programs with generated edits
+    core.enum_search(list(directed_editions()), ex, stats, findings=ctx.findings, shard=ctx.shard, nshards=ctx.nshards, deadline_s=dl(0.3))
+    from hypothesis import strategies as st
+    from vlib import progs
+    ed_kinds = st.builds(lambda k, s_, dl_: {"kind": k, "site": s_, "delta": dl_, "alt": False, "idx": 0},
+                         st.sampled_from(["lit", "lit", "var", "nested", "pdef", "kwdef", "varcopy"]), st.integers(0, 30), st.integers(1, 5))
+    ed_cases = st.builds(lambda p, eds, a: {"part": "editions", "src": "random", "program": p, "edits": eds, "args": a},
+                         progs.program_strategy(max_fns=6 if thorough else 5, allow_hidden=False, allow_explicit=True, allow_cluster=True, allow_init=True),
+                         st.lists(ed_kinds, min_size=1, max_size=3), st.sampled_from([[2], [2, 3], [1, 3]]))
+    core.hyp_search(ed_cases, ex, stats, max_examples=400 if thorough else 8, seed=core.hash64(ctx.seed, ID, "editions", ctx.shard),
+                    findings=ctx.findings, deadline_s=dl(0.45))
+    core.hyp_search(strategy(thorough), ex, stats, max_examples=n,
                     seed=core.hash64(ctx.seed, ID, ctx.shard), findings=ctx.findings,
                     deadline_s=(ctx.deadline - time.time()) if ctx.deadline else None)
     return stats
